@@ -591,6 +591,11 @@ pub fn drive<H: Host>(scn: &Scenario, world: &Arc<World>, host: &mut H, inputs: 
 /// Build the world and the ruleset of a scenario and run it on the local
 /// single-thread host. `Err` = the harness could not even set the scenario up.
 pub fn run(scn: &Scenario) -> Result<RunOut, String> {
+    run_with(scn, None)
+}
+
+/// As `run`, optionally with already materialised inputs replacing the record's.
+pub fn run_with(scn: &Scenario, override_inputs: Option<Vec<Arc<Input>>>) -> Result<RunOut, String> {
     install_panic_hook();
     if scn.inputs.is_empty() {
         return Err("scenario without inputs".into());
@@ -598,8 +603,13 @@ pub fn run(scn: &Scenario) -> Result<RunOut, String> {
     let world = World::new(scn.functions.clone(), &scn.behaviour);
     let built = build_ruleset(scn, &world)?;
     let mut inputs = Vec::new();
-    for i in &scn.inputs {
-        inputs.push(Arc::new(make_input(i)?));
+    match override_inputs {
+        Some(v) => inputs = v,
+        None => {
+            for i in &scn.inputs {
+                inputs.push(Arc::new(make_input(i)?));
+            }
+        }
     }
     let mut host = LocalHost::new(&built, scn.tasks.len());
     Ok(drive(scn, &world, &mut host, &inputs))
